@@ -125,6 +125,12 @@ def run(repo, rep, tier):
     rep.check('dial', 'every entry of the target list is parsed', [v for v, dp in r['parsed']] == entries, mn, 'target entries parsed: %s (listed: %s)' % ([v for v, dp in r['parsed']], entries), stmt='targets parsed')
     rep.check('targets-file', 'the -p value is the default port for entries without one', all(dp == 2222 for v, dp in r['parsed']) and bool(r['parsed']), mn, 'default_port passed to parse_host_and_port: %s (the -p value is 2222)' % [dp for v, dp in r['parsed']], stmt='default port')
     want = [('H<%s>' % v, 'P<%s|%s>' % (v, 2222)) for v in entries]
+    # the same host listed with two ports (and twice with the same port) is scanned once per entry
+    ent2 = ['alpha.example:22', 'alpha.example:2222', 'beta.example', 'beta.example']
+    r2 = _mainloop.run(repo, [0, 0, 0, 0], False, targets=ent2, parse=lambda v, dp: (v.split(':')[0], int(v.split(':')[1]) if ':' in v else dp), port=22)
+    rep.evals()
+    rep.check('dial', 'every listed entry gets its own scan, also when a host is listed with several ports', r2['submitted'] == [('alpha.example', 22), ('alpha.example', 2222), ('beta.example', 22), ('beta.example', 22)], mn,
+              'for the entries %s the tasks submitted are %s' % (ent2, r2['submitted']), stmt='one scan per entry')
     rep.check('dial', 'each task receives the host and the port of the parsed pair it stands for, in that order', r['submitted'] == want, mn, 'tasks submitted with (host, port) = %s, the parsed pairs are %s' % (r['submitted'], want), stmt='tasks per parsed pair')
     # command line: host/port stores
     st = [n for n in walk_no_nested(pc) if isinstance(n, ast.Assign) and unparse(n.targets[0]) in ('aconf.host', 'aconf.port')]
